@@ -116,6 +116,50 @@ class _Clone(Contract):
         zs.append(z)
     return z3.And(*zs) if zs else True
 
+  # -- native replay: flags of the copy == flags of the original, under every
+  # combination of the scoped overrides (a flag must be copied from the object,
+  # not from what a scope currently makes of it); children copied / shared as
+  # the statement says.
+  def _make(self, m):
+    kw = dict(sealed=bool(m.get('sealed')), accessor_writable=bool(m.get('accessor_writable')),
+              allow_partial=bool(m.get('allow_partial')))
+    leaf = object()
+    if self.ctor == 'Dict':
+      return pg.Dict({'sym': pg.Dict(x=1), 'leaf': leaf}, **kw), leaf
+    return pg.List([pg.Dict(x=1), leaf], **kw), leaf
+
+  def replay(self, obligation, m):
+    import contextlib
+    o, leaf = self._make(m)
+    deep = bool(m.get('deep'))
+    scopes = m.get('scopes') or (None, None)
+    with contextlib.ExitStack() as st:
+      if scopes[0] is not None:
+        st.enter_context(pg.as_sealed(scopes[0]))
+      if scopes[1] is not None:
+        st.enter_context(pg.allow_writable_accessors(scopes[1]))
+      c = o.clone(deep=deep)
+    probs = []
+    for f in ('is_sealed', 'accessor_writable', 'allow_partial'):
+      if getattr(c, f) != getattr(o, f):
+        probs.append(f'{f}: copy {getattr(c, f)}, original {getattr(o, f)}')
+    k_sym, k_leaf = ('sym', 'leaf') if self.ctor == 'Dict' else (0, 1)
+    if c.sym_getattr(k_sym) is o.sym_getattr(k_sym):
+      probs.append('symbolic child shared with the original')
+    if not deep and c.sym_getattr(k_leaf) is not leaf:
+      probs.append('leaf of a shallow clone not shared')
+    return dict(outcome='reproduced' if probs else 'not-reproduced',
+                detail=f'pg.{self.ctor}(..., sealed={o.is_sealed}, accessor_writable={o.accessor_writable}, '
+                       f'allow_partial={o.allow_partial}).clone(deep={deep}) under as_sealed({scopes[0]}), '
+                       f'allow_writable_accessors({scopes[1]}): ' + ('; '.join(probs) or 'copy agrees'))
+
+  def small_models(self):
+    import itertools
+    from pyvc.contracts import Model
+    for sealed, aw, ap, deep in itertools.product((False, True), repeat=4):
+      for sc in itertools.product((None, True, False), repeat=2):
+        yield Model(dict(sealed=sealed, accessor_writable=aw, allow_partial=ap, deep=deep, scopes=sc), {})
+
   def trace_original_untouched(self, events, outcome, interp, env):
     s = interp.resolve(env['self'])
     return not [e for e in events if e.kind in ('write', 'payload-write') and e.data and e.data[0] is s]
@@ -192,10 +236,3 @@ class ListSymClone(_Clone):
   def _stored(self, interp, frame):
     return frame.locals['v']
 
-  def replay(self, obligation, m):
-    l = pg.List([1], sealed=True, accessor_writable=False)
-    c = l.clone(deep=True)
-    ok = c.is_sealed == l.is_sealed and c.accessor_writable == l.accessor_writable
-    return dict(outcome='not-reproduced' if ok else 'reproduced',
-                detail=f'pg.List([1], sealed=True, accessor_writable=False).clone(deep=True): '
-                       f'is_sealed={c.is_sealed}, accessor_writable={c.accessor_writable}')
